@@ -504,3 +504,202 @@ def replay_flatten(rp):
             probs.append("a hierarchical instance remains")
         probs += wellformed.c01_problems(wellformed.closure(list(objs.values())))
         return bool(probs), "flatten: %s" % probs[:3]
+
+
+# ---- C11 / C13: the name maps built by the depth-first walks ------------------------------------------------------
+class _NameMap:
+    """stand-in for the `namemap` dictionary (name -> list of references), interpreted like the code under test:
+    records every (name, reference) pair appended, in order"""
+
+    def __init__(self, names, refs):
+        self.names = names
+        self.refs = refs
+
+    def __contains__(self, key):
+        return key in self.names
+
+    def __setitem__(self, key, value):
+        pass
+
+    def __getitem__(self, key):
+        return _NameMapEntry(self, key)
+
+
+class _NameMapEntry:
+    def __init__(self, owner, key):
+        self.owner = owner
+        self.key = key
+
+    def append(self, href):
+        self.owner.names.append(self.key)
+        self.owner.refs.append(href)
+
+
+INST_NAMES = ["top", "m", "f", "l", "u"]
+CABLE_NAMES = ["t", "w_in", "w_out", "w", "x"]
+
+
+def namemap_job(fixture, which, tier, recursive=True, timeout_ms=300000, prop="C11"):
+    """_update_hwire_namemap / _update_hcable_namemap(<top instance>, recursive, found, namemap) on a hierarchy-concrete
+    fixture: exactly one entry per cable / wire occurrence below the start (all levels when recursive, wire-only
+    cells included, leaf cells not entered), named by the slash-joined instance names below the top, the cable name
+    and -- for bits of an array cable, one-bit arrays included -- the bus index lower_index + position."""
+    import importlib
+    mod = importlib.import_module("spydrnet.util.get_hwires" if which == "hwire" else "spydrnet.util.get_hcables")
+    fn = mod._update_hwire_namemap if which == "hwire" else mod._update_hcable_namemap
+    from vf.e1.vals import Local
+    from vf.e1.sym import mkbool, SInt
+    from vf.e1 import ops
+    t0 = time.time()
+    name = "%s/%s{%s,recursive=%s}" % (prop, fn.__name__, fixture, recursive)
+    u, pre, fx = H.build(fixture, atoms=tuple(INST_NAMES + CABLE_NAMES + [""]))
+    kn = u.keys.index(".NAME")
+    # concrete, distinct names; whether a cable carries its name at all, its array flag and base index are symbolic
+    for i in range(u.live["Instance"]):
+        pre.data["Instance"][i][kn] = (True, ATOMS.intern(INST_NAMES[i]))
+    for c in range(u.live["Cable"]):
+        pre.data["Cable"][c][kn] = (z3.Bool("cable%d_has_name" % c), ATOMS.intern(CABLE_NAMES[c]))
+    heap = pre.copy()
+    ctx = Ctx(heap, M.REAL)
+    M.listeners_none(ctx)
+    ctx.loop_bound = 12
+    paths, ids = H.install_hrefs(ctx, u, fx)
+    ctx.local_classes = (_NameMap, _NameMapEntry)
+    ctx.interp_prefixes = ("spydrnet", "vf.e1.hier_jobs")
+    fr = Frame(None, True, {})
+    A = pre.type_constraints() + spec.inv_all(pre) + H.local_nets(pre, fx)
+    for c in range(u.live["Cable"]):
+        L = pre.sc[("Cable", "_lower_index")][c]
+        A += [L >= 0, L <= 3]
+    A = [B(a) for a in A if a is not True]
+    ctx.path_assumptions = list(A)
+    ctx.prune_infeasible_raises = True
+    cap = len([p for p in paths if u.cls_of(p[-1])[0] in ("Wire", "Cable")]) + 2
+    blank = lambda: SList(0, [None] * cap)
+    nm = Local(_NameMap, {"names": blank(), "refs": blank()})
+    found = SList(0, [None] * cap, None, True)
+    # the recursive flag is fixed by the job (cube split): with the hierarchy concrete the walk itself is concrete,
+    # the solver decides the naming (name present or not, array flag, base index of every cable)
+    top_path = H.HPath((u.gid("Instance", fx["top"]),))
+    try:
+        call_function(ctx, fr, fn, [top_path, recursive, found, nm])
+    except Unsupported as e:
+        return [result(name, INCONCLUSIVE, "E1/symheap", detail="Unsupported: %s" % e, wall_s=time.time() - t0)]
+    names, refs = nm.f["names"], nm.f["refs"]
+    sh = fx["shape"]
+    kind = "Wire" if which == "hwire" else "Cable"
+    items = [p for p in paths if u.cls_of(p[-1])[0] == kind]
+    cs, nodup, named = [], [], []
+    leaf_defs = {d for d in range(u.live["Definition"]) if not sh.get(("Definition", d, "_children"))
+                 and not sh.get(("Definition", d, "_cables"))}
+    for p in items:
+        pid = ATOMS.intern(p)
+        ipath = p[:-2] if kind == "Wire" else p[:-1]
+        depth = len(ipath)
+        hits = [AND(present(refs, k), EQ(to_atom(refs.el[k]).t, pid)) for k in range(refs.cap) if refs.el[k] is not None]
+        want = True if depth == 1 else recursive
+        cs.append(EQ(OR(*hits), want) if is_sym(OR(*hits)) else (OR(*hits) == want))
+        for x in range(len(hits)):
+            for y in range(x):
+                nodup.append(NOT(AND(hits[x], hits[y])))
+        # expected name
+        cab = u.cls_of(p[-2] if kind == "Wire" else p[-1])[1]
+        parts = [INST_NAMES[u.cls_of(g)[1]] for g in ipath[1:]]
+        has_name = pre.data["Cable"][cab][kn][0]
+        for hn in (True, False):
+            base = "/".join(parts + [CABLE_NAMES[cab] if hn else ""])
+            if kind == "Cable":
+                exp = [(True, base)]
+            else:
+                wires = sh.get(("Cable", cab, "_wires"), [])
+                pos = wires.index(u.cls_of(p[-1])[1])
+                scalar = AND(pre.sc[("Cable", "_is_scalar")][cab], len(wires) <= 1)
+                L = pre.sc[("Cable", "_lower_index")][cab]
+                exp = [(scalar, base)] + [(AND(NOT(scalar), EQ(L, l)), "%s[%d]" % (base, l + pos)) for l in range(4)]
+            for k in range(refs.cap):
+                if refs.el[k] is None or names.el[k] is None:
+                    continue
+                hit = AND(present(refs, k), EQ(to_atom(refs.el[k]).t, pid), (has_name if hn else NOT(has_name)))
+                for cond, text in exp:
+                    named.append(IMPLIES(AND(hit, cond), EQ(to_atom(names.el[k]).t, ATOMS.intern(text))))
+    funcs = sorted(fn_ident(f) for f in ctx.funcs_seen)
+    bounds = dict(u.describe(), fixture=fixture, occurrences=len(items),
+                  recursive=recursive, symbolic="per cable: has a name, array flag, base index 0..3")
+    ok = [B(NOT(ctx.bound)), B(NOT(ctx.exc))]
+    tw = {"returns": M.check(A, AND(NOT(ctx.exc), NOT(ctx.bound)), 300000)[0]}
+    if any(v != "sat" for v in tw.values()):
+        return [result(name, VACUOUS, "E1/symheap", twins=tw, bounds=bounds,
+                       detail="reachability twin failed %s: %s" % (tw, sorted(set(ctx.bound_why))[:3]))]
+    out = []
+    for g, goal in (("one-entry-per-occurrence-no-omission", NOT(AND(*cs))), ("no-duplicates", NOT(AND(*nodup))),
+                    ("named-by-path-cable-and-bus-index", NOT(AND(*named))), ("never-raises", None)):
+        oname = name + "/" + g
+        if goal is None:
+            st, dt, mdl = M.check(A + [B(NOT(ctx.bound))], ctx.exc, timeout_ms)
+        else:
+            st, dt, mdl = M.check(A + ok, goal, timeout_ms)
+        if st == "unsat":
+            out.append(result(oname, DISCHARGED, "E1/symheap", queries=1, solver_s=dt, twins=tw, bounds=bounds,
+                              functions=funcs, detail="unsat", wall_s=time.time() - t0, paths=1))
+        elif st != "sat":
+            out.append(result(oname, INCONCLUSIVE, "E1/symheap", detail="solver: %s" % st, bounds=bounds))
+        else:
+            state = replay.heap_to_state(pre, mdl)
+            rp = {"engine": "E1", "property": prop, "obligation": oname, "kind": "namemap", "state": state, "which": which,
+                  "recursive": recursive, "top": u.gid("Instance", fx["top"]), "netlist": u.gid("Netlist", 0)}
+            try:
+                viol, txt = replay_namemap(rp)
+            except Exception:
+                viol, txt = False, "replay crashed: " + traceback.format_exc()[-400:]
+            out.append(result(oname, VIOLATED if viol else ERROR, "E1/symheap", queries=1, solver_s=dt, twins=tw,
+                              bounds=bounds, functions=funcs, replay=rp if viol else None,
+                              detail=txt if viol else "counterexample did not reproduce: " + txt,
+                              wall_s=time.time() - t0))
+    return out
+
+
+def replay_namemap(rp):
+    """the public query on the real netlist: get_hwires / get_hcables(top instance, recursive=...) names"""
+    import spydrnet as sdn
+    with replay.listener_config("none"):
+        objs = replay.build(rp["state"])
+        built, _ = replay.abstract(objs)
+        diffs = replay.states_equal(rp["state"], built)
+        if diffs:
+            return False, "built state differs from the model: " + "; ".join(diffs[:3])
+        top = objs[rp["top"]]
+        q = sdn.get_hwires if rp["which"] == "hwire" else sdn.get_hcables
+        # (a netlist as the root is what routes the query through the name map; an instance root uses another walk)
+        got = sorted(h.name for h in q(objs[rp["netlist"]], recursive=rp["recursive"]))
+        expect = []
+
+        def walk(inst, prefix, depth):
+            d = inst.reference
+            if d is None:
+                return
+            for cable in d.cables:
+                base = "/".join(prefix + [cable.name or ""])
+                if rp["which"] == "hcable":
+                    expect.append(base)
+                else:
+                    for k, w in enumerate(cable.wires):
+                        scalar = len(cable.wires) <= 1 and cable._is_scalar
+                        expect.append(base if scalar else "%s[%d]" % (base, cable.lower_index + k))
+            if rp["recursive"]:
+                for ch in d.children:
+                    if ch.reference is not None and (ch.reference.children or ch.reference.cables):
+                        walk(ch, prefix + [ch.name or ""], depth + 1)
+        walk(top, [], 0)
+        if got != sorted(expect):
+            return True, "%s(netlist, recursive=%s) names %s, the design has %s" % (
+                q.__name__, rp["recursive"], got, sorted(expect))
+        # the keys of the name map are what a name pattern is matched against: ask for every expected name
+        import collections
+        import re
+        for nm_, cnt in sorted(collections.Counter(expect).items()):
+            res = list(q(objs[rp["netlist"]], re.escape(nm_), is_re=True, recursive=rp["recursive"]))
+            if len(res) != cnt or any(h.name != nm_ for h in res):
+                return True, "%s(netlist, %r, is_re=True, recursive=%s) returned %s, the design has %d occurrence(s) of that name" % (
+                    q.__name__, re.escape(nm_), rp["recursive"], [h.name for h in res], cnt)
+        return False, "%s(netlist, recursive=%s): every name %s resolves to its occurrences" % (
+            q.__name__, rp["recursive"], sorted(expect))
